@@ -28,17 +28,52 @@ def sh(cmd, cwd=None, env=None, timeout=3600):
     return p.returncode, (p.stdout + p.stderr)
 
 
+def recheck(pid, checks, tier):
+    """Re-run the checks against seeds already filed (patch.diff in /verif/seeded/<PID>-k)."""
+    import glob
+    for dest in sorted(glob.glob(os.path.join(ROOT, "seeded", pid + "-*"))):
+        d = "/var/tmp/seedeval/" + os.path.basename(dest)
+        shutil.rmtree(d, ignore_errors=True)
+        os.makedirs(d)
+        try:
+            shutil.copytree("/repo/canopen", d + "/canopen")
+            rc, out = sh(["patch", "-p1", "--no-backup-if-mismatch", "-i", os.path.join(dest, "patch.diff")], cwd=d)
+            if rc != 0:
+                print(os.path.basename(dest), "patch no longer applies:", out[-200:])
+                continue
+            meta = json.load(open(os.path.join(dest, "meta.json")))
+            results = {}
+            for chk in checks:
+                for t in ([tier] if tier == "thorough" else ["quick", "thorough"]):
+                    t0 = time.time()
+                    rc_c, out_c = sh([os.path.join(ROOT, "check"), chk, "--tier", t, "--no-evidence"], env=dict(os.environ, CANOPEN_REPO=d), timeout=7200)
+                    mechs = [ln.strip() for ln in out_c.splitlines() if ln.strip().startswith("mechanism=")]
+                    results[f"{chk}:{t}"] = {"exit": rc_c, "caught": rc_c == 1, "mechanisms": mechs[:6], "wall_s": round(time.time() - t0, 1)}
+                    if rc_c == 1:
+                        break
+            caught = any(r["caught"] for r in results.values())
+            meta.setdefault("history", []).append({"checks": meta.get("checks"), "verdict": meta.get("verdict")})
+            meta["checks"], meta["verdict"] = results, "CAUGHT" if caught else "MISSED"
+            json.dump(meta, open(os.path.join(dest, "meta.json"), "w"), indent=1)
+            print(os.path.basename(dest), meta["verdict"], "; ".join(f"{c}={'caught' if r['caught'] else 'rc%s' % r['exit']} {r['mechanisms'][:1]}" for c, r in results.items()))
+        finally:
+            shutil.rmtree(d, ignore_errors=True)
+
+
 def main():
     ap = argparse.ArgumentParser()
     ap.add_argument("pid")
     ap.add_argument("--src")
     ap.add_argument("--checks", help="comma separated property ids to run (default: the seeded property)")
     ap.add_argument("--tier", default="quick")
+    ap.add_argument("--recheck", action="store_true", help="re-run the checks on the changes already filed under /verif/seeded")
     a = ap.parse_args()
     pid = a.pid.upper()
     src = a.src or f"/tmp/seed/{pid}"
     checks = (a.checks or pid).split(",")
     notes = open(os.path.join(src, "NOTES.md")).read() if os.path.exists(os.path.join(src, "NOTES.md")) else ""
+    if a.recheck:
+        return recheck(pid, checks, a.tier)
     for k in (1, 2, 3):
         patch = os.path.join(src, f"patch_{k}.diff")
         demo = os.path.join(src, f"demo_{k}.py")
@@ -113,7 +148,8 @@ def main():
                 json.dump(meta, fh, indent=1)
         finally:
             shutil.rmtree(d, ignore_errors=True)
-    shutil.rmtree("/var/tmp/seedeval", ignore_errors=True) if not os.listdir("/var/tmp/seedeval") else None
+    if os.path.isdir("/var/tmp/seedeval") and not os.listdir("/var/tmp/seedeval"):
+        shutil.rmtree("/var/tmp/seedeval", ignore_errors=True)
 
 
 if __name__ == "__main__":
